@@ -14,16 +14,15 @@ from vf import tlc
 
 def run(ctx):
     cov = {}
-    d = tlc.check_design("LazyLoad_MC", "LazyLoad_MC.cfg", workers=4, timeout=600)
+    d = tlc.check_design("LazyLoad_MC", "LazyLoad_MC.cfg", workers=8, timeout=900)
     for v in d.violated:
         ctx.violation("design|" + v, "LazyLoad (acyclic graphs) violates %s" % v, {"tlc": d.tail[-30:]})
-    d2 = tlc.run_tlc("LazyLoad_MC", "LazyLoad_MC_cyclic.cfg", workers=4, timeout=600)
-    cov["design"] = {"module": "LazyLoad_MC", "acyclic": {"states": d.distinct, "checked": ["NoReentry", "LoadsClosure", "Terminates"]},
-                     "cyclic": {"states": d2.distinct, "violated": d2.violated,
-                                "note": "the refined model re-enters on a reference cycle: design-level form of F-10a"}}
-    if "NoReentry" in d2.violated:
-        ctx.violation("dev:Dev_RegisterAfterRead", "LazyLoad re-enters loadInstance on a cyclic reference graph (design level)",
-                      {"tlc": d2.tail[-30:]})
+    d2 = tlc.check_design("LazyLoad_MC", "LazyLoad_MC_cyclic.cfg", workers=8, timeout=900)
+    for v in d2.violated:
+        ctx.violation("design|cyclic|" + v, "LazyLoad (graphs with cycles) violates %s" % v, {"tlc": d2.tail[-30:]})
+    checked = ["NoReentry", "QuietIsComplete", "LoadsClosure", "InverseExact", "Terminates"]
+    cov["design"] = {"module": "LazyLoad_MC", "acyclic": {"instances": 4, "states": d.distinct, "checked": checked},
+                     "cyclic": {"instances": 3, "states": d2.distinct, "checked": checked}}
     r = lazy_common.run_family(ctx, "plain", ["index", "fwd", "rev", "deps", "load-differs", "crash"])
     # the inverse family is loaded too: same clauses (its inverse attributes are C11's business)
     r2 = lazy_common.run_family(ctx, "inv", ["index", "fwd", "rev", "deps", "load-differs", "crash"])
